@@ -230,7 +230,7 @@ def gen_law(rng, tier):
 
 
 def generate(ctx):
-    n = 4000 if ctx.tier == 'thorough' else 220
+    n = 4000 if ctx.tier == 'thorough' else 190
     rng = np.random.default_rng(ctx.seed + 103)
     out, k, tries = [], 0, 0
     while k < n and tries < 4 * n:
